@@ -323,7 +323,7 @@ pub fn run_phase(ph: &Phase, cfg: &Config) -> PhaseReport {
                             }
                         }
                         first = false;
-                        if count_in_item.is_power_of_two() && item_reps < 20 && v.is_ok() {
+                        if count_in_item.is_power_of_two() && item_reps < 20 {
                             st.reps.push((unit, cx.choices()));
                             item_reps += 1;
                         }
@@ -351,7 +351,6 @@ pub fn run_phase(ph: &Phase, cfg: &Config) -> PhaseReport {
                                 if alone_ok {
                                     let mut f = f;
                                     f.what = format!("{} [history-dependent: the same execution alone in a fresh thread satisfies the property]", f.what);
-                                    st.reps.push((unit, ch.clone()));
                                     if suspect.as_ref().map_or(true, |(i0, _)| it < *i0) {
                                         suspect = Some((it, Violation { phase: ph.name, unit, choices: ch, fail: f, preceded_by: None }));
                                     }
